@@ -5,7 +5,8 @@ import WpModel.Drive.PdfPages
 import WpModel.Drive.DrawSkeleton
 import WpModel.Drive.PdfFile
 import WpModel.Drive.PdfFonts
+import WpModel.Drive.GradientDraw
 
 def main : IO Unit := Wp.Drive.runDriver
   [Wp.Drive.PdfStream.handle, Wp.Drive.ContentCheck.handle, Wp.Drive.PdfPages.handle, Wp.Drive.DrawSkeleton.handle,
-   Wp.Drive.PdfFile.handle, Wp.Drive.PdfFonts.handle]
+   Wp.Drive.PdfFile.handle, Wp.Drive.PdfFonts.handle, Wp.Drive.GradientDraw.handle]
